@@ -86,6 +86,11 @@ fn eval_plain(id: &str, m: &Movie, fl: &FileLayout, xs: &[Xf], canon: &str, rep:
     }
     let built = build_plain(m, fl, &|top| apply_all(top, xs));
     let bytes = Rc::new(built.ser.bytes);
+    if rep.verbose {
+        if let Ok(p) = std::env::var("VERIF_DUMP") {
+            let _ = std::fs::write(&p, &bytes[..]);
+        }
+    }
     let mut fails = Vec::new();
     match open(&bytes) {
         Ok(mut mp4) => {
@@ -123,7 +128,7 @@ fn frag_xf(xs: &[Xf]) -> (Vec<Xf>, Vec<Xf>) {
     for x in xs {
         let target = match x {
             Xf::InsertTop { .. } => "top".to_string(),
-            Xf::InsertChild { path, .. } | Xf::Permute { path, .. } | Xf::Large { path } | Xf::Spare { path, .. } => path.clone(),
+            Xf::InsertChild { path, .. } | Xf::Permute { path, .. } | Xf::Large { path } | Xf::Spare { path, .. } | Xf::SpareAtEnd { path, .. } => path.clone(),
         };
         if target.starts_with("moof#") || target.starts_with("mdat#") {
             moof.push(x.clone());
@@ -264,11 +269,17 @@ pub fn run(args: &Args) -> i32 {
                 if !args.want(&id) {
                     continue;
                 }
+                // a generator of its own per case, so that `--only` regenerates exactly this case
+                let mut rng = Rng::derive(args.seed, 0xC12C, (i << 8) | c);
                 let k = 2 + rng.usize_below(5);
                 // paths refer to the canonical tree; inserted siblings do not rename them
                 let mut xs: Vec<Xf> = (0..k).map(|_| singles[rng.usize_below(singles.len())].clone()).collect();
-                // apply insertions last so that slot numbers stay meaningful
-                xs.sort_by_key(|x| matches!(x, Xf::InsertTop { .. } | Xf::InsertChild { .. }) as u8);
+                // apply insertions late so that slot numbers stay meaningful, moves last
+                xs.sort_by_key(|x| match x {
+                    Xf::InsertTop { .. } | Xf::InsertChild { .. } => 1u8,
+                    Xf::SpareAtEnd { .. } => 2,
+                    _ => 0,
+                });
                 eval_plain(&id, &m, &fl, &xs, &canon, &mut rep);
                 if rep.too_many_fails() {
                     return rep.finish();
@@ -312,9 +323,17 @@ pub fn run(args: &Args) -> i32 {
                 if !args.want(&id) {
                     continue;
                 }
+                // a generator of its own per case, so that `--only` regenerates exactly this case
+                let mut rng = Rng::derive(args.seed, 0xC12C, (i << 8) | c);
                 let k = 2 + rng.usize_below(5);
+                // paths refer to the canonical tree; inserted siblings do not rename them
                 let mut xs: Vec<Xf> = (0..k).map(|_| singles[rng.usize_below(singles.len())].clone()).collect();
-                xs.sort_by_key(|x| matches!(x, Xf::InsertTop { .. } | Xf::InsertChild { .. }) as u8);
+                // apply insertions late so that slot numbers stay meaningful, moves last
+                xs.sort_by_key(|x| match x {
+                    Xf::InsertTop { .. } | Xf::InsertChild { .. } => 1u8,
+                    Xf::SpareAtEnd { .. } => 2,
+                    _ => 0,
+                });
                 eval_frag(&id, &fm, &xs, &canon, &mut rep);
                 if rep.too_many_fails() {
                     return rep.finish();
